@@ -70,10 +70,15 @@ HANG_LIMIT_S = 75.0           # a worker that makes no progress for this long is
 def _worker_proc(sl, seed, items, tier, explicit, q, progress):
     """runs items, streaming one compact record per case through the queue"""
     model = Model()
+    timeouts = found = 0
     try:
         for pos, item in enumerate(items):
             progress[0] = pos
             progress[1] = time.time()
+            if timeouts >= 3 or found >= 12:
+                # evidence enough (three cases that do not terminate, or a dozen failing cases in this worker alone):
+                # the rest of this worker's share is skipped so that a violating tree is reported in minutes, not hours
+                break
             if explicit:
                 case = item
             else:
@@ -87,6 +92,10 @@ def _worker_proc(sl, seed, items, tier, explicit, q, progress):
                 findings, classes = [("disagreement", "harness exception: " + "".join(
                     traceback.format_exception(type(e).__name__ and type(e), e, e.__traceback__))[-1500:])], ["harness-exception"]
             classes = list(classes)
+            if "timeout" in classes:
+                timeouts += 1
+            if findings:
+                found += 1
             q.put(("case", _case_key(case), bool(sl.nontrivial(classes)), classes,
                    [(k, case, d) for k, d in findings][:3], case if pos < 2 else None))
         q.put(("done",))
